@@ -12,7 +12,14 @@ import (
 	"golang.org/x/tools/go/ssa/ssautil"
 )
 
-const repoDir = "/repo"
+// repoDir is the tree under verification: /repo, or a scratch copy for the must-fail
+// selftest (GOWP_REPO), never anything else.
+var repoDir = func() string {
+	if d := os.Getenv("GOWP_REPO"); d != "" {
+		return d
+	}
+	return "/repo"
+}()
 
 // Loaded holds the typed and SSA form of the repository's current working tree.
 type Loaded struct {
